@@ -6,7 +6,10 @@
 // (MsgAddLightNodeClientLicense, MsgRegisterLightNodeClient, MsgAuthLightNodeClient,
 // MsgSetLegacyLightNodeClients, bank MsgSend, feegrant MsgGrantAllowance) are signed
 // transactions that pass the real ante chain and msg router, one per block.  A sale is
-// a MsgLightNodeSaleClaim signed and delivered by the (single, 100 % power) validator:
+// a MsgLightNodeSaleClaim signed and delivered by the (single, 100 % power) validator,
+// reported from either of TWO active bridge chains (sale contracts are authorised per
+// chain) and carrying any contract address string (the authorised one, another one, one
+// authorised for a different chain, the empty string — nothing validates that field):
 // the real claim handler stores the attestation and the real skyway EndBlocker of the
 // same block tallies it and runs processAttestation -> handleLightNodeSale inside its
 // own cache context.  Configuration (fee granter, funders, sale contracts) is applied
@@ -43,9 +46,14 @@ import (
 
 const (
 	c18NAddr       = 9
-	c18Chain       = "test-chain"
 	c18CasesPerApp = 25
+	c18NSaleChains = 2 // chains 0 and 1 are active bridge chains whose claims the oracle tallies
 )
+
+// Chain reference ids.  0 and 1 are active EVM chains (sales are reported from either); 2 never reports
+// anything and exists only as a key of the sale-contract store (a contract authorised for it must not
+// authorise any other chain).
+var c18Chains = []string{"test-chain", "chain-b", "other-chain"}
 
 var c18Denoms = []string{"ugrain", "uother", "1x", "uthird"} // index 2 is not a valid denomination
 
@@ -94,9 +102,9 @@ type c18Obs struct {
 	bal, lk  [c18NAddr][2]*big.Int
 	clients  []c18Key
 	grants   map[[2]int]bool
-	fg       int   // -1 unset, -2 unknown
-	funders  []int // nil = none
-	contract int   // -1 unset
+	fg       int    // -1 unset, -2 unknown
+	funders  []int  // nil = none
+	contract [3]int // per chain of c18Chains: contract string code (see contractStr), -1 no record, -2 unknown string
 	nacc     uint64
 	digest   string // paloma + feegrant stores
 }
@@ -105,7 +113,7 @@ type c18Env struct {
 	t       *testing.T
 	r       *Rec
 	fa      *FullApp
-	compass string
+	compass [c18NSaleChains]string
 	onApp   int
 	ethH    uint64
 	blocks  int64
@@ -133,14 +141,21 @@ type c18Case struct {
 
 func (e *c18Env) newApp() {
 	e.fa = NewFullApp(e.t, FullAppOpts{NumValidators: 1, NumUsers: 1, Seed: e.r.Seed*1000 + int64(e.caseNo)})
-	if b, err := e.fa.ActivateEVMChain(FAEvmChain{RefID: c18Chain}); err != nil || !b.OK() {
-		e.t.Fatalf("activate chain: %v %v", err, b.Err)
+	if b, err := e.fa.ActivateEVMChain(FAEvmChain{RefID: c18Chains[0], ChainID: 1337}); err != nil || !b.OK() {
+		e.t.Fatalf("activate chain %s: %v %v", c18Chains[0], err, b.Err)
 	}
-	ci, err := e.fa.App().EvmKeeper.GetChainInfo(e.fa.CtxCached(), c18Chain)
-	if err != nil {
-		e.t.Fatal(err)
+	for i := 1; i < c18NSaleChains; i++ {
+		if b, err := e.c18AddChain(c18Chains[i], uint64(1337+i)); err != nil || !b.OK() {
+			e.t.Fatalf("activate chain %s: %v %v", c18Chains[i], err, b.Err)
+		}
 	}
-	e.compass = string(ci.SmartContractUniqueID)
+	for i := 0; i < c18NSaleChains; i++ {
+		ci, err := e.fa.App().EvmKeeper.GetChainInfo(e.fa.CtxCached(), c18Chains[i])
+		if err != nil {
+			e.t.Fatal(err)
+		}
+		e.compass[i] = string(ci.SmartContractUniqueID)
+	}
 	e.sink = e.fa.User(0)
 	e.onApp, e.ethH, e.blocks = 0, 100, e.fa.Height()
 	// the escrow module account is created lazily; create it before any baseline is taken
@@ -153,6 +168,34 @@ func (e *c18Env) newApp() {
 	if b := e.fa.KeepAliveAll(); !b.OK() {
 		e.t.Fatalf("keepalive: %v", b.Err)
 	}
+}
+
+// c18AddChain activates a further EVM chain that runs the compass contract already on record
+// (FullApp.ActivateEVMChain would save a new contract and try to deploy it to the first chain).
+func (e *c18Env) c18AddChain(ref string, chainID uint64) (FABlockResult, error) {
+	fa := e.fa
+	return fa.WithDeliverCtx(func(ctx sdk.Context) error {
+		a := fa.App()
+		if err := a.EvmKeeper.AddSupportForNewChain(ctx, ref, chainID, 100, "0x1234567890123456789012345678901234567890123456789012345678901234", big.NewInt(0)); err != nil {
+			return err
+		}
+		if err := a.EvmKeeper.SetFeeManagerAddress(ctx, ref, "0x00000000000000000000000000000000000000FE"); err != nil {
+			return err
+		}
+		if err := fa.registerValidatorsOnChain(ctx, ref, ""); err != nil {
+			return err
+		}
+		sc, err := a.EvmKeeper.GetLastCompassContract(ctx)
+		if err != nil {
+			return err
+		}
+		if err := a.EvmKeeper.ActivateChainReferenceID(ctx, ref, sc, "0x00000000000000000000000000000000000000C1", []byte("compass-"+ref)); err != nil {
+			return err
+		}
+		a.MetrixKeeper.UpdateUptime(ctx)
+		_, err = a.ValsetKeeper.TriggerSnapshotBuild(ctx)
+		return err
+	})
 }
 
 func (e *c18Env) modAddr() sdk.AccAddress {
@@ -237,7 +280,7 @@ func (c *c18Case) observe() *c18Obs { return c.observeCtx(c.e.fa.CtxCached(), tr
 // observeCtx reads the state visible in ctx; digest=false skips the (committed-state) store digests.
 func (c *c18Case) observeCtx(ctx sdk.Context, digest bool) *c18Obs {
 	fa, app := c.e.fa, c.e.fa.App()
-	o := &c18Obs{lics: map[c18Key]c18Lic{}, grants: map[[2]int]bool{}, fg: -1, contract: -1}
+	o := &c18Obs{lics: map[c18Key]c18Lic{}, grants: map[[2]int]bool{}, fg: -1, contract: [3]int{-1, -1, -1}}
 	for d := 0; d < 2; d++ {
 		o.esc[d] = app.BankKeeper.GetBalance(ctx, c.e.modAddr(), c18Denoms[d]).Amount.BigInt()
 	}
@@ -299,11 +342,10 @@ func (c *c18Case) observeCtx(ctx sdk.Context, digest bool) *c18Obs {
 			o.funders = append(o.funders, c.addrIdx(a.String()))
 		}
 	}
-	if sc, err := app.SkywayKeeper.LightNodeSaleContract(ctx, c18Chain); err == nil && sc != nil {
-		o.contract = -2
-		var n int
-		if _, err := fmt.Sscanf(sc.ContractAddress, "0x%x", &n); err == nil {
-			o.contract = n
+	for ch, name := range c18Chains {
+		// a record EXISTS for the chain (whatever address string it holds) iff the lookup succeeds
+		if sc, err := app.SkywayKeeper.LightNodeSaleContract(ctx, name); err == nil && sc != nil {
+			o.contract[ch] = c18ContractCode(sc.ContractAddress)
 		}
 	}
 	n, err := app.AccountKeeper.AccountNumber.Peek(ctx)
@@ -378,8 +420,14 @@ func (o *c18Obs) line(withLocked bool) string {
 	if len(o.funders) > 0 {
 		fu = c18Ints(o.funders)
 	}
-	if o.contract != -1 {
-		ct = fmt.Sprint(o.contract)
+	var cts []string
+	for ch, code := range o.contract {
+		if code != -1 {
+			cts = append(cts, fmt.Sprintf("%d:%d", ch, code))
+		}
+	}
+	if len(cts) > 0 {
+		ct = strings.Join(cts, ";")
 	}
 	lks := ""
 	if withLocked {
@@ -409,9 +457,10 @@ type c18Op struct {
 	amt             *big.Int
 	denom           int
 	months          uint32
-	contract        int
+	chain           int      // sale: index into c18Chains of the claim's chain_reference_id
+	contract        int      // sale: code of the claim's smart_contract_address string
+	pairs           [][2]int // setcontracts: (chain, contract string code) records in proposal order
 	list            []int
-	variant         int
 }
 
 func (c *c18Case) at(t int64) { c.e.fa.NextTime = time.Unix(t, 0).UTC() }
@@ -478,14 +527,32 @@ func c18OptKey(k c18Key) string {
 	return k.String()
 }
 
-func (c *c18Case) contractStr(n int) string { return fmt.Sprintf("0x%040x", n) }
+// contractStr: the smart-contract address STRING with code n.  Code 0 is the EMPTY string (which
+// MsgLightNodeSaleClaim.ValidateBasic and the proposal handler both let through), n > 0 a hex address.
+func (c *c18Case) contractStr(n int) string {
+	if n == 0 {
+		return ""
+	}
+	return fmt.Sprintf("0x%040x", n)
+}
+
+func c18ContractCode(s string) int {
+	if s == "" {
+		return 0
+	}
+	var n int
+	if _, err := fmt.Sscanf(s, "0x%x", &n); err == nil && n > 0 && fmt.Sprintf("0x%040x", n) == s {
+		return n
+	}
+	return -2
+}
 
 // exec runs one operation against the app; returns the op line and the result.
 func (c *c18Case) exec(op c18Op) (string, string) {
 	fa, app := c.e.fa, c.e.fa.App()
 	t := op.t
 	switch op.kind {
-	case "fund", "gift", "setfg", "setfunders", "setcontract":
+	case "fund", "gift", "setfg", "setfunders", "setcontracts":
 		line, fn := c.hookFn(op)
 		res := c.hook(t, fn)
 		if op.kind == "gift" && res == "ok" {
@@ -503,24 +570,25 @@ func (c *c18Case) exec(op c18Op) (string, string) {
 		c.at(t)
 		return line, c18Res(fa.DeliverTx(c.accts[op.signer], msg))
 	case "sale":
-		line := fmt.Sprintf("sale %d %s %s %d", t, c18OptKey(op.clientKey()), op.amt, op.contract)
+		line := fmt.Sprintf("sale %d %d %s %s %d", t, op.chain, c18OptKey(op.clientKey()), op.amt, op.contract)
+		chain := c18Chains[op.chain]
 		v := fa.ValidatorOperator(0)
-		nonce, err := app.SkywayKeeper.GetLastSkywayNonceByValidator(fa.CtxCached(), v.ValAddr(), c18Chain)
+		nonce, err := app.SkywayKeeper.GetLastSkywayNonceByValidator(fa.CtxCached(), v.ValAddr(), chain)
 		if err != nil {
 			c.e.t.Fatal(err)
 		}
 		c.e.ethH++
 		claim := &skywaytypes.MsgLightNodeSaleClaim{
 			Metadata: FAMeta(v.Addr, v.Addr), EventNonce: nonce + 1, EthBlockHeight: c.e.ethH, Orchestrator: v.Addr.String(),
-			ChainReferenceId: c18Chain, SkywayNonce: nonce + 1, ClientAddress: c.clientStr(op),
-			Amount: sdkmath.NewIntFromBigInt(op.amt), SmartContractAddress: c.contractStr(op.contract), CompassId: c.e.compass,
+			ChainReferenceId: chain, SkywayNonce: nonce + 1, ClientAddress: c.clientStr(op),
+			Amount: sdkmath.NewIntFromBigInt(op.amt), SmartContractAddress: c.contractStr(op.contract), CompassId: c.e.compass[op.chain],
 		}
 		c.at(t)
 		r := fa.DeliverTx(v, claim)
 		if !r.OK() {
 			c.e.t.Fatalf("claim tx failed: code=%d %s %s", r.Code, r.Log, r.BlockErr)
 		}
-		last, err := app.SkywayKeeper.GetLastObservedSkywayNonce(fa.CtxCached(), c18Chain)
+		last, err := app.SkywayKeeper.GetLastObservedSkywayNonce(fa.CtxCached(), chain)
 		if err != nil || last != nonce+1 {
 			c.e.t.Fatalf("claim %d was not observed in its block (last observed %d, %v)", nonce+1, last, err)
 		}
@@ -616,17 +684,14 @@ func (c *c18Case) hookFn(op c18Op) (string, func(ctx sdk.Context) error) {
 		return line, func(ctx sdk.Context) error {
 			return ph(ctx, &palomatypes.SetLightNodeClientFundersProposal{Title: "t", Description: "d", FunderAccounts: l})
 		}
-	case "setcontract":
-		cs := "-"
+	case "setcontracts":
 		var l []*skywaytypes.LightNodeSaleContract
-		if op.contract >= 0 {
-			cs = fmt.Sprint(op.contract)
-			l = append(l, &skywaytypes.LightNodeSaleContract{ChainReferenceId: c18Chain, ContractAddress: c.contractStr(op.contract)})
+		var cs []string
+		for _, p := range op.pairs {
+			cs = append(cs, fmt.Sprintf("%d:%d", p[0], p[1]))
+			l = append(l, &skywaytypes.LightNodeSaleContract{ChainReferenceId: c18Chains[p[0]], ContractAddress: c.contractStr(p[1])})
 		}
-		if op.variant == 1 { // a contract for some other chain never authorises this one
-			l = append(l, &skywaytypes.LightNodeSaleContract{ChainReferenceId: "other-chain", ContractAddress: c.contractStr(1)})
-		}
-		line := fmt.Sprintf("setcontract %d %s", t, cs)
+		line := fmt.Sprintf("setcontracts %d %s", t, c18Join(";", cs))
 		sh := skywaykeeper.NewSkywayProposalHandler(app.SkywayKeeper)
 		return line, func(ctx sdk.Context) error {
 			return sh(ctx, &skywaytypes.SetLightNodeSaleContractsProposal{Title: "t", Description: "d", LightNodeSaleContracts: l})
@@ -811,8 +876,16 @@ func (c *c18Case) monitors(op c18Op, line, res string, prev, cur *c18Obs) {
 					okFunder = true
 				}
 			}
-			if prev.fg == -1 || len(prev.funders) == 0 || prev.contract != op.contract || !okFunder {
-				c.hit("sale_all_or_nothing", fmt.Sprintf("`%s` created a licence with config fg=%d funders=%v contract=%d, funder with balance=%v", line, prev.fg, prev.funders, prev.contract, okFunder))
+			// "only if … an authorised sale contract [is] configured": the chain the sale was reported from
+			// has a sale-contract record, and the claim names exactly the address string of that record
+			auth := prev.contract[op.chain]
+			if auth == -1 {
+				c.hit("sale_all_or_nothing", fmt.Sprintf("`%s` created a licence although no sale contract is configured for chain %d (claimed contract %q; configured per chain: %v)", line, op.chain, c.contractStr(op.contract), prev.contract))
+			} else if auth != op.contract {
+				c.hit("sale_all_or_nothing", fmt.Sprintf("`%s` created a licence although the claimed contract %q is not the one authorised for chain %d (configured per chain: %v)", line, c.contractStr(op.contract), op.chain, prev.contract))
+			}
+			if prev.fg == -1 || len(prev.funders) == 0 || !okFunder {
+				c.hit("sale_all_or_nothing", fmt.Sprintf("`%s` created a licence with config fg=%d funders=%v, funder with balance=%v", line, prev.fg, prev.funders, okFunder))
 			}
 			if !cur.grants[[2]int{prev.fg, op.client}] {
 				c.hit("sale_all_or_nothing", fmt.Sprintf("`%s` created a licence but no fee grant %d>%d", line, prev.fg, op.client))
@@ -877,10 +950,22 @@ func (c *c18Case) monitors(op c18Op, line, res string, prev, cur *c18Obs) {
 func (c *c18Case) hit2SaleStats(op c18Op, prev *c18Obs) {
 	amt := new(big.Int).Mul(op.amt, big.NewInt(1_000_000))
 	switch {
-	case prev.contract == -1:
+	case prev.contract[op.chain] == -1:
 		c.e.r.Stat("sale.no_contract")
-	case prev.contract != op.contract:
+		if op.contract == 0 {
+			c.e.r.Stat("sale.no_contract.empty_claimed")
+		}
+		for ch, code := range prev.contract {
+			if ch != op.chain && code == op.contract {
+				c.e.r.Stat("sale.no_contract.claimed_authorised_for_other_chain")
+				break
+			}
+		}
+	case prev.contract[op.chain] != op.contract:
 		c.e.r.Stat("sale.wrong_contract")
+		if op.contract == 0 {
+			c.e.r.Stat("sale.wrong_contract.empty_claimed")
+		}
 	case prev.fg == -1:
 		c.e.r.Stat("sale.no_feegranter")
 	case len(prev.funders) == 0:
@@ -1178,14 +1263,72 @@ func (c *c18Case) genCreate() c18Op {
 
 func (c *c18Case) genSale() c18Op {
 	cl, bad := c.client()
-	ct := 1
-	if c.prev.contract >= 0 {
-		ct = c.prev.contract
+	ch, ct := c.saleOrigin()
+	return c18Op{kind: "sale", t: c.nextT(), client: cl, bad: bad, upClient: c.upperFlip(cl), amt: c.grains(), chain: ch, contract: ct}
+}
+
+// saleOrigin picks the chain a sale is reported from and the contract address string the claim carries:
+// mostly an authorised (chain, contract) pair, otherwise every way of NOT being authorised — a chain
+// without any sale-contract record, the empty string (nothing validates the field), a contract that is
+// authorised for another chain only, an arbitrary other address.
+func (c *c18Case) saleOrigin() (int, int) {
+	var conf []int
+	for ch := 0; ch < c18NSaleChains; ch++ {
+		if c.prev.contract[ch] >= 0 {
+			conf = append(conf, ch)
+		}
 	}
-	if c.rnd(8) == 0 {
-		ct = 1 + c.rnd(3)
+	ch := c.rnd(c18NSaleChains)
+	if len(conf) > 0 && c.rnd(10) < 7 {
+		ch = c.pick(conf)
 	}
-	return c18Op{kind: "sale", t: c.nextT(), client: cl, bad: bad, upClient: c.upperFlip(cl), amt: c.grains(), contract: ct}
+	elsewhere := func() int {
+		for _, o := range c.e.r.Rng.Perm(len(c18Chains)) {
+			if o != ch && c.prev.contract[o] >= 0 {
+				return c.prev.contract[o]
+			}
+		}
+		return 1 + c.rnd(3)
+	}
+	auth := c.prev.contract[ch]
+	x := c.rnd(100)
+	switch {
+	case auth >= 0 && x < 76:
+		return ch, auth
+	case auth >= 0 && x < 84, auth < 0 && x < 40:
+		return ch, 0
+	case auth >= 0 && x < 92, auth < 0 && x < 70:
+		return ch, elsewhere()
+	default:
+		return ch, c.rnd(4)
+	}
+}
+
+// contractCode: mostly one of three well-formed addresses, now and then the empty string
+func (c *c18Case) contractCode() int {
+	if c.rnd(10) == 0 {
+		return 0
+	}
+	return 1 + c.rnd(3)
+}
+
+// genPairs: the record list of a SetLightNodeSaleContractsProposal (which REPLACES the whole table)
+func (c *c18Case) genPairs() [][2]int {
+	var l [][2]int
+	switch x := c.rnd(100); {
+	case x < 15: // the table is emptied
+	case x < 70: // each chain independently; test-chain more often than not
+		for ch := range c18Chains {
+			if c.rnd(3) > 0 || (ch == 0 && c.rnd(2) == 0) {
+				l = append(l, [2]int{ch, c.contractCode()})
+			}
+		}
+	default: // arbitrary records in arbitrary order; a later record for the same chain replaces an earlier one
+		for n := 1 + c.rnd(4); n > 0; n-- {
+			l = append(l, [2]int{c.rnd(len(c18Chains)), c.contractCode()})
+		}
+	}
+	return l
 }
 
 func (c *c18Case) genActivate() c18Op {
@@ -1233,11 +1376,7 @@ func (c *c18Case) genConfig() c18Op {
 	case 0:
 		return c18Op{kind: "setfg", t: c.nextT(), client: c.anyAddr()}
 	case 1:
-		ct, variant := 1+c.rnd(2), c.rnd(2)
-		if c.rnd(6) == 0 {
-			ct = -1
-		}
-		return c18Op{kind: "setcontract", t: c.nextT(), contract: ct, variant: variant}
+		return c18Op{kind: "setcontracts", t: c.nextT(), pairs: c.genPairs()}
 	default:
 		var l []int
 		for n := c.rnd(4); n > 0; n-- {
@@ -1329,11 +1468,22 @@ func (c *c18Case) setup(profile int) {
 		ops = append(ops, c18Op{kind: "setfunders", list: l})
 	}
 	switch profile {
-	case 3:
-	case 4:
-		ops = append(ops, c18Op{kind: "setcontract", contract: -1, variant: 1})
-	default:
-		ops = append(ops, c18Op{kind: "setcontract", contract: 1, variant: c.rnd(2)})
+	case 3: // no sale contract for any chain
+	case 4: // sale contracts for other chains only: they never authorise test-chain
+		pairs := [][2]int{{2, 1}}
+		if c.rnd(2) == 0 {
+			pairs = append(pairs, [2]int{1, 1 + c.rnd(2)})
+		}
+		ops = append(ops, c18Op{kind: "setcontracts", pairs: pairs})
+	default: // test-chain authorised; chain-b mostly not
+		pairs := [][2]int{{0, 1}}
+		if c.rnd(2) == 0 {
+			pairs = append(pairs, [2]int{2, 1 + c.rnd(2)})
+		}
+		if c.rnd(3) == 0 {
+			pairs = append(pairs, [2]int{1, 1 + c.rnd(2)})
+		}
+		ops = append(ops, c18Op{kind: "setcontracts", pairs: pairs})
 	}
 	c.doBatch(ops)
 }
@@ -1347,7 +1497,7 @@ func (c *c18Case) directedRollback() {
 		return
 	}
 	x, y, z := fresh[0], fresh[1], fresh[2]
-	c.do(c18Op{kind: "sale", t: c.nextT(), client: x, amt: big.NewInt(0), contract: c.prev.contract})
+	c.do(c18Op{kind: "sale", t: c.nextT(), client: x, amt: big.NewInt(0), contract: c.authOr1(0)})
 	// make y a vesting account with a large locked balance, then the only funder
 	payer := 0
 	for a := 0; a < 3; a++ {
@@ -1363,10 +1513,72 @@ func (c *c18Case) directedRollback() {
 	c.do(c18Op{kind: "activate", t: c.nextT(), signer: y, creator: y})
 	c.do(c18Op{kind: "setfunders", t: c.nextT(), list: []int{y}})
 	g := new(big.Int).Div(amt, big.NewInt(1_000_000))
-	c.do(c18Op{kind: "sale", t: c.e.fa.Time().Unix() + 2, client: z, amt: g, contract: c.prev.contract})
+	c.do(c18Op{kind: "sale", t: c.e.fa.Time().Unix() + 2, client: z, amt: g, contract: c.authOr1(0)})
 	// ... and once half of it has vested the same sale goes through (if configured)
 	if c.prev.acc[y].kind == 'v' {
-		c.do(c18Op{kind: "sale", t: c.prev.acc[y].stop + 1, client: z, amt: g, contract: c.prev.contract})
+		c.do(c18Op{kind: "sale", t: c.prev.acc[y].stop + 1, client: z, amt: g, contract: c.authOr1(0)})
+	}
+}
+
+// authOr1: the contract authorised for chain ch (1 if there is none)
+func (c *c18Case) authOr1(ch int) int {
+	if a := c.prev.contract[ch]; a >= 0 {
+		return a
+	}
+	return 1
+}
+
+// directed: everything a sale needs is in place (fee granter, a funder with spendable balance, a fresh client, an
+// affordable price) EXCEPT the authorisation of its origin.  (a) The chain the sale is reported from has no
+// sale-contract record at all, while other chains have: the claim names the empty string, the contract authorised
+// for the other bridge chain, the one authorised for a third chain.  (b) The chain has a record: the claim names
+// the empty string, a contract authorised elsewhere.  (c) The whole table is emptied.  None of these may create a
+// licence; the same sale with the authorised (chain, contract) pair then must.
+func (c *c18Case) directedUnauthorised() {
+	fresh := c.withKind('n')
+	if len(fresh) < 1 {
+		return
+	}
+	x := fresh[c.rnd(len(fresh))]
+	payer := 0
+	for a := 0; a < 3; a++ {
+		if c.spendable(a, 0).Cmp(c.spendable(payer, 0)) > 0 {
+			payer = a
+		}
+	}
+	if c.spendable(payer, 0).Cmp(big.NewInt(3_000_000)) < 0 {
+		return
+	}
+	if c.prev.fg == -1 || c.rnd(3) == 0 {
+		c.do(c18Op{kind: "setfg", t: c.nextT(), client: c.rnd(4)})
+	}
+	c.do(c18Op{kind: "setfunders", t: c.nextT(), list: []int{payer}})
+	on := c.rnd(c18NSaleChains) // the bridge chain that is authorised
+	off := 1 - on               // the bridge chain that is not
+	perm := c.e.r.Rng.Perm(3)
+	a, b := 1+perm[0], 1+perm[1]
+	table := [][2]int{{on, a}, {2, b}}
+	if c.rnd(2) == 0 {
+		table[0], table[1] = table[1], table[0]
+	}
+	c.do(c18Op{kind: "setcontracts", t: c.nextT(), pairs: table})
+	g := big.NewInt(int64(1 + c.rnd(2)))
+	sale := func(ch, ct int) string {
+		return c.do(c18Op{kind: "sale", t: c.nextT(), client: x, amt: g, chain: ch, contract: ct})
+	}
+	tries := [][2]int{{off, 0}, {off, a}, {off, b}, {on, 0}, {on, b}}
+	c.e.r.Rng.Shuffle(len(tries), func(i, j int) { tries[i], tries[j] = tries[j], tries[i] })
+	for _, tr := range tries {
+		sale(tr[0], tr[1])
+	}
+	if c.rnd(2) == 0 {
+		c.do(c18Op{kind: "setcontracts", t: c.nextT()})
+		sale(on, 0)
+		sale(c.rnd(c18NSaleChains), a)
+		c.do(c18Op{kind: "setcontracts", t: c.nextT(), pairs: table})
+	}
+	if sale(on, a) == "ok" {
+		c.e.r.Stat("directed.unauthorised_then_authorised")
 	}
 }
 
@@ -1421,7 +1633,7 @@ func (e *c18Env) runCase() {
 	c.ops = append(c.ops, "reset")
 	e.r.Op("reset", "ok")
 
-	profile := c.rnd(16) // 0 no fee granter, 1 no funders, 2 empty funders, 3 no contract, 4 other chain only, 5.. complete
+	profile := c.rnd(16) // 0 no fee granter, 1 no funders, 2 empty funders, 3 no contract, 4 other chains only, 5.. complete
 	e.r.Stat(fmt.Sprintf("profile.%d", min(profile, 5)))
 	c.setup(profile)
 	malformed := c.rnd(10) == 0
@@ -1431,6 +1643,9 @@ func (e *c18Env) runCase() {
 		steps = 4 + c.rnd(6)
 	} else if c.rnd(8) == 0 {
 		c.directedUpper()
+		steps = 4 + c.rnd(6)
+	} else if c.rnd(5) == 0 {
+		c.directedUnauthorised()
 		steps = 4 + c.rnd(6)
 	}
 	for i := 0; i < steps; i++ {
